@@ -180,12 +180,19 @@ theorem clear_halt_resets_out_toggle (c : StreamOutEndpoint.Config) (s : StreamO
     (StreamOutEndpoint.step c s i).1.expectedToggle = false := by
   simp [StreamOutEndpoint.step, hh]
 
-/-- **sig_toggle_advances_iff_acked**: the status endpoint's toggle flips exactly when it is waiting for
-the ACK of its packet and the host's ACK arrives after an IN token for it. -/
-theorem sig_toggle_advances_iff_acked (c : SignalIn.Config) (s : SignalIn.State) (i : SignalIn.In) :
+/-- **sig_toggle_advances_iff_acked**: without a halt-clear naming it, the status endpoint's toggle flips
+exactly when it is waiting for the ACK of its packet and the host's ACK arrives after an IN token for it. -/
+theorem sig_toggle_advances_iff_acked (c : SignalIn.Config) (s : SignalIn.State) (i : SignalIn.In)
+    (hh : i.clearHalt = false) :
     (SignalIn.step c s i).1.toggle ≠ s.toggle ↔ (s.fsm = .waitAck ∧ SignalIn.ackTaken c i = true) := by
   obtain ⟨fsm, latched, sent, toggle⟩ := s
-  cases fsm <;> simp [SignalIn.step] <;> (repeat' split) <;> simp_all
+  cases fsm <;> simp [SignalIn.step, SignalIn.stepCore, hh] <;> (repeat' split) <;> simp_all
+
+/-- **clear_halt (status IN)**: a halt-clear naming the status endpoint leaves its toggle at DATA0 in every
+FSM state (fix 08e26ae / 61d16f5). -/
+theorem clear_halt_resets_sig_toggle (c : SignalIn.Config) (s : SignalIn.State) (i : SignalIn.In)
+    (hh : i.clearHalt = true) : (SignalIn.step c s i).1.toggle = false := by
+  simp [SignalIn.step, hh]
 
 end OutSigCycle
 
@@ -222,19 +229,19 @@ theorem haltHits_none (ec : EpCfg) (d : Bool) (sh : Shared) (h : sh.halt = none)
 
 /-- **clear_halt_resets_exactly_named_endpoint**.  In the event in which the strobe `(direction, number)`
 fires (the host's ACK of the status stage of CLEAR_FEATURE):
- * a stream endpoint whose direction and number are the ones named has toggle DATA0 afterwards
-   (IN: provided it is not in WAIT_FOR_ACK, which `new_token` has ruled out; OUT: always);
+ * the endpoint (stream IN, stream OUT or status) whose direction and number are the ones named has toggle
+   DATA0 afterwards (stream IN: provided it is not in WAIT_FOR_ACK, which `new_token` has ruled out);
  * every endpoint that is *not* named ends the event exactly as it would have without the strobe. -/
 theorem clear_halt_resets_exactly_named_endpoint (ec : EpCfg) (sh : Shared) (d : Bool) (n : Nat)
     (hh : sh.halt = some (d, n)) (st : EpState) (e : HostEvent) (hk : C12.kindOk ec st = true)
     (he : e = .handshake PID_ACK) (htok : sh.tokEp = 0) (hnum : 0 < ec.num) (hnt : sh.newTok = false) :
-    ((d = dirIn ec.kind ∧ n = ec.num) → ec.kind ≠ .signalIn →
+    ((d = dirIn ec.kind ∧ n = ec.num) →
         (∀ x, st = .sin x → x.fsm ≠ .waitAck) → toggleOf (epStep ec sh st e).1 = false) ∧
     (¬(d = dirIn ec.kind ∧ n = ec.num) → epStep ec sh st e = epStep ec { sh with halt := none } st e) := by
   subst he
   have hne : ¬(sh.tokEp = ec.num) := by omega
   constructor
-  · intro ⟨hd, hn⟩ hsig hwa
+  · intro ⟨hd, hn⟩ hwa
     cases st with
     | sin x =>
       have hkind : ec.kind = .streamIn := by simpa [C12.kindOk] using hk
@@ -246,7 +253,7 @@ theorem clear_halt_resets_exactly_named_endpoint (ec : EpCfg) (sh : Shared) (d :
       simp_all [epStep, haltHits, dirIn, toggleOf]
     | sig x =>
       have hkind : ec.kind = .signalIn := by simpa [C12.kindOk] using hk
-      exact absurd hkind hsig
+      simp_all [epStep, haltHits, dirIn, toggleOf, sigAck]
   · intro hnot
     cases st with
     | sin x =>
@@ -263,7 +270,13 @@ theorem clear_halt_resets_exactly_named_endpoint (ec : EpCfg) (sh : Shared) (d :
         simp only [dirIn, hkind] at hnot
         cases d <;> simp_all
       simp [epStep, this, haltHits_none, hne, hnt]
-    | sig x => simp [epStep, hne, hnt]
+    | sig x =>
+      have hkind : ec.kind = .signalIn := by simpa [C12.kindOk] using hk
+      have : haltHits ec true sh = false := by
+        simp only [haltHits, hh]
+        simp only [dirIn, hkind] at hnot
+        cases d <;> simp_all
+      simp [epStep, this, haltHits_none, hne, hnt]
 
 /-! Event-level toggle laws of the three endpoint kinds (the pieces `epStep` is made of). -/
 
